@@ -1429,6 +1429,45 @@ pub fn gen(ctx: &Ctx, emit: &mut dyn FnMut(String)) {
             emit(format!("c01 convert - le {line}"));
         }
     }
+    // .debug_pubnames / .debug_pubtypes: a set with a valid header whose entry list ends in a partial
+    // entry (stray bytes where the next offset should be, or a name without its NUL), followed or not
+    // by another set — the iterator must stop after the error
+    for dwarf64 in [false, true] {
+        for stray in 0..9usize {
+            for tail in 0..3u8 {
+                for second_set in [false, true] {
+                    let word = |v: u64| -> Vec<u8> { if dwarf64 { v.to_le_bytes().to_vec() } else { (v as u32).to_le_bytes().to_vec() } };
+                    let mut body = vec![2u8, 0];
+                    body.extend(word(0));
+                    body.extend(word(0x40));
+                    body.extend(word(0x1b));
+                    body.extend_from_slice(b"main\0");
+                    match tail {
+                        0 => body.extend(std::iter::repeat(0x41u8).take(stray)),
+                        1 => {
+                            body.extend(word(0x2c));
+                            body.extend(std::iter::repeat(0x61u8).take(stray));
+                        }
+                        _ => {
+                            body.extend(word(0));
+                            body.extend(std::iter::repeat(0u8).take(stray));
+                        }
+                    }
+                    let mut sec = Vec::new();
+                    if dwarf64 {
+                        sec.extend_from_slice(&0xffff_ffffu32.to_le_bytes());
+                    }
+                    sec.extend(word(body.len() as u64));
+                    sec.extend(body);
+                    if second_set {
+                        let copy = sec.clone();
+                        sec.extend(copy);
+                    }
+                    emit(format!("c01 pubnames - le {}", hex(&sec)));
+                }
+            }
+        }
+    }
     // DWARF 5 line headers: every small shape of the two entry-format descriptions and entry counts
     // (no format / no path / one path / two paths / unknown content types) — the parsers of the
     // entries rely on what the format parser has checked
